@@ -9,4 +9,5 @@ var zzEntries = map[string]func(){
 	"ZZ_MP_bmc":      ZZ_MP_bmc,
 	"ZZ_AUX_bmc":     ZZ_AUX_bmc,
 	"ZZ_AUX_step":    ZZ_AUX_step,
+	"ZZ_C07_bmc":     ZZ_C07_bmc,
 }
